@@ -191,3 +191,39 @@ def check_exits(ctx):
                 new.append("%s has %d return / yield statements, the rules were confirmed on %d" % (full, count_exits(f), rec[q]))
     if new and ctx.broken is None:
         ctx.broken = "an analysed function has an exit the rules have never read (a fast path / cache / special case added): " + "; ".join(new[:3])
+
+
+# ---------------------------------------------------------------------------------------------------------------------
+# Rule M (every property): no class of the anchor files overrides an operation the rules resolve along the MRO without the rules having read it
+# ---------------------------------------------------------------------------------------------------------------------
+METHODS_TABLE = os.path.join(VERIF, "sa", "methods_table.json")
+OPERATIONS = {"then", "tensor", "dagger", "subs", "lambdify", "grad", "jacobian", "eval", "array", "dom", "cod", "boxes", "offsets", "layers", "free_symbols", "id", "swap", "permutation", "cups", "caps",
+              "upgrade", "downgrade", "bubble", "interchange", "normalize", "normal_form", "foliate", "foliation", "flatten", "transpose", "name", "data", "is_dagger", "is_mixed", "l", "r", "z", "objects",
+              "terms", "inside", "measure", "get_counts", "to_tk", "to_pyzx", "draw", "phase", "bitstring", "function", "utensor", "classical", "quantum", "map", "conjugate", "zeros", "count"}
+
+
+def methods_table_of(mod, tree):
+    _, classes = index_functions(mod, tree)
+    return {q: sorted(n.name if isinstance(n, (ast.FunctionDef, ast.AsyncFunctionDef)) else t.id for n in c.body for t in ([n] if isinstance(n, (ast.FunctionDef, ast.AsyncFunctionDef)) else
+                      [x for tt in n.targets for x in (tt.elts if isinstance(tt, ast.Tuple) else [tt]) if isinstance(x, ast.Name)] if isinstance(n, ast.Assign) else []))
+            for q, c in classes.items()}
+
+
+def check_new_methods(ctx):
+    """A method added to a class (say `Sum.__getitem__`, or `subs` on a base class) changes what the special syntax and the inherited operations of every subclass mean.  The rules read the
+    methods that existed when they were confirmed; an override they have never read makes the run an analysis error (exit 2) unless another rule establishes a violation."""
+    if not os.path.exists(METHODS_TABLE):
+        return
+    table = json.load(open(METHODS_TABLE))
+    m = ctx.model
+    new = []
+    for mod in [x for x in anchor_modules(ctx.prop) if x in m.modules]:
+        rec = table.get(mod, {})
+        for q, names_ in methods_table_of(mod, m.modules[mod]).items():
+            if q not in rec:
+                continue
+            for nm in names_:
+                if nm not in rec[q] and ((nm.startswith("__") and nm.endswith("__")) or nm in OPERATIONS):
+                    new.append("%s.%s.%s" % (mod, q, nm))
+    if new and ctx.broken is None:
+        ctx.broken = "a class of the anchor files defines an operation the rules have never read (it changes what the syntax / the inherited method means for the class and its subclasses): " + ", ".join(new[:4])
